@@ -302,7 +302,7 @@ func c11Class(d c11Doc, missing string) string {
 }
 
 func runC11(ctx *Ctx) error {
-	ctx.Res.Rule = "RUN: seeded documents with enums at every position (top-level, property, array item of a member and of a top-level array, parameter, body, response) over value lists biased to collisions (case/punctuation variants, leading digits, keywords, blank, quotes/backslashes/newlines, duplicates, x-enum-varnames/x-enumNames of any length) x always-prefix x old-enum-conflicts; the generated file is type-checked with go/types and the multiset of {set of constant values per enum type} compared with the multiset of {set of distinct values per enum schema}; every constant is of its enum's named type; no redeclaration; CORR: SanitizeEnumNames and the string-literal rendering vs the Lean model; CORR: the constant blocks GenerateEnums renders for seeded sets of enums and types with clash-prone names (values spelled like types, like other enums' prefixed constants; always-prefix on/off; any order) vs EnumClash.resolveFix, and the statement on them (no constant twice, none named like a type); non-trivial = every document"
+	ctx.Res.Rule = "RUN: seeded documents with enums at every position (top-level, property, array item of a member and of a top-level array, parameter, body, response) over value lists biased to collisions (case/punctuation variants, leading digits, keywords, blank, quotes/backslashes/newlines, duplicates, x-enum-varnames/x-enumNames of any length) x always-prefix x old-enum-conflicts; the generated file is type-checked with go/types and the multiset of {set of constant values per enum type} compared with the multiset of {set of distinct values per enum schema}; every constant is of its enum's named type; no redeclaration; CORR: SanitizeEnumNames and the string-literal rendering vs the Lean model; CORR: the constant blocks GenerateEnums renders for seeded sets of enums and types with clash-prone names (values spelled like types, like other enums' prefixed constants; always-prefix on/off; any order) vs EnumClash.resolveFix, and the statement on them (no constant twice, none named like a type); non-trivial = every document Session 9: CORR of the third naming pass (renameEnumNames, Model/Enums.lean pass3) through a hook; values whose names the renaming makes equal in the pool; inline string enum as text/plain body; enums on path-item parameters."
 	if err := c11Corr(ctx, ctx.N(3000, 40000)); err != nil {
 		return err
 	}
